@@ -271,3 +271,110 @@ func classifyBBReplay(c bbReplayCase) ([]string, bool) {
 func TestC01BB_CrossBuildReplay(t *testing.T) {
 	prop[bbReplayCase]{property: "C01", gen: genBBReplay, check: checkBBReplay, classify: classifyBBReplay}.run(t)
 }
+
+// ---- C19: standalone files of a real test program ------------------------------------------------------------
+// The k-th standalone call of a test maps to file k at the documented location - wherever the program is checked out
+// (odd shards: a directory with '%' and a blank in its name) - holds exactly the value, and replays read-only.
+
+type bbStandaloneCase struct {
+	Pkg    string   `json:"pkg"`
+	Test   string   `json:"test"`
+	File   string   `json:"file"`
+	Dir    *string  `json:"dir"` // nil = default directory
+	Ext    string   `json:"ext"`
+	Values []string `json:"values"` // one MatchStandaloneSnapshot call per value, in this order
+	Trim   bool     `json:"trimpath_build"`
+}
+
+func genBBStandalone(t *rapid.T) bbStandaloneCase {
+	tt := rapid.SampledFrom(c11Tests).Draw(t, "test")
+	c := bbStandaloneCase{Pkg: tt.pkg, Test: tt.test, File: tt.file, Ext: rapid.SampledFrom([]string{"", "", ".txt", ".%d"}).Draw(t, "ext"), Trim: rapid.IntRange(0, 3).Draw(t, "trim") == 0}
+	switch rapid.IntRange(0, 3).Draw(t, "dir") {
+	case 1:
+		c.Dir = strp("snapdir")
+	case 2:
+		c.Dir = strp("50%_done/snaps")
+	}
+	c.Values = rapid.SliceOfN(rapid.SampledFrom([]string{"value", "", "a\r\nb\r\n", "---", "100% done %d %s", "line 1\nline 2\n", "\ufeffbom", "[TestAlpha - 1]\nx\n---\n", "é", " "}), 1, 12).Draw(t, "values")
+	return c
+}
+
+func checkBBStandalone(c bbStandaloneCase) error {
+	var steps []Step
+	for _, v := range c.Values {
+		steps = append(steps, Step{Op: "call", API: "ssnap", Cfg: Cfg{Dir: c.Dir, Ext: c.Ext}, Value: v, Shape: "direct"})
+	}
+	want := expectedC11(c11Case{Pkg: c.Pkg, Test: c.Test, File: c.File, Steps: steps}, "")
+	scn := Scenario{Tests: map[string]*Node{c.Test: {Steps: steps}}}
+	cleanShard()
+	defer cleanShard()
+	res, out, err := runProgram(RunOpts{Pkg: c.Pkg, Trim: c.Trim}, scn)
+	if err != nil {
+		return fmt.Errorf("recording run: %v", err)
+	}
+	if err := callErrors(res); err != nil {
+		return fmt.Errorf("recording run: %v (output %s)", err, clip(out))
+	}
+	got := observedFiles()
+	if len(got) != len(want) {
+		var gl []string
+		for p := range got {
+			gl = append(gl, p)
+		}
+		sort.Strings(gl)
+		return fmt.Errorf("%d standalone calls created %d files: %v", len(c.Values), len(got), relAll(gl))
+	}
+	// file k holds value k
+	dir := "__snapshots__"
+	if c.Dir != nil {
+		dir = *c.Dir
+	}
+	for k, v := range c.Values {
+		p := filepath.Join(scnRoot, c.Pkg, dir, fmt.Sprintf("%s_%d.snap%s", c.Test, k+1, c.Ext))
+		data, ok := got[p]
+		if !ok {
+			var gl []string
+			for q := range got {
+				gl = append(gl, q)
+			}
+			sort.Strings(gl)
+			return fmt.Errorf("standalone call %d of %s must live in %q; files created: %v", k+1, c.Test, relAll([]string{p})[0], relAll(gl))
+		}
+		if data != v {
+			return fmt.Errorf("file %d (%q) holds %q, the value of call %d is %q", k+1, relAll([]string{p})[0], clip(data), k+1, clip(v))
+		}
+	}
+	// read-only replay on CI
+	res, out, err = runProgram(RunOpts{Pkg: c.Pkg, Trim: c.Trim, CI: true}, scn)
+	if err != nil {
+		return fmt.Errorf("replay run: %v", err)
+	}
+	for _, cr := range res.Calls {
+		if len(cr.Errors) != 0 {
+			return fmt.Errorf("replaying the identical standalone call on CI fails: %q", cr.Errors)
+		}
+	}
+	after := observedFiles()
+	if len(after) != len(got) {
+		return fmt.Errorf("the replay on CI changed the number of files from %d to %d", len(got), len(after))
+	}
+	for p, d := range got {
+		if after[p] != d {
+			return fmt.Errorf("the replay on CI changed %q", relAll([]string{p})[0])
+		}
+	}
+	return nil
+}
+
+func TestC19BB_StandaloneFiles(t *testing.T) {
+	prop[bbStandaloneCase]{property: "C19", gen: genBBStandalone, check: checkBBStandalone, classify: func(c bbStandaloneCase) ([]string, bool) {
+		cls := []string{fmt.Sprintf("calls_%d", min(len(c.Values), 10))}
+		if strings.Contains(filepath.Base(scnRoot), "%") {
+			cls = append(cls, "program_checked_out_under_a_path_with_percent_and_blank")
+		}
+		if c.Trim {
+			cls = append(cls, "trimpath_build")
+		}
+		return cls, len(c.Values) >= 2
+	}}.run(t)
+}
